@@ -99,7 +99,7 @@ struct Shared {
     yield_on_boundary: bool,
     /// every shred handed to the disseminator, with whether the send "succeeded"
     sent: Vec<(Shred, bool)>,
-    /// of 64: how many sends of a slice fail (chosen by a hash of the position)
+    /// how many of the 64 sends of every slice fail (<= 30)
     fail_per_64: u64,
     fail_salt: u64,
 }
@@ -190,8 +190,10 @@ impl Disseminator for RecDiss {
     async fn send(&self, shred: &Shred) -> std::io::Result<()> {
         let mut st = lock(&self.0);
         let (slot, slice, idx) = shred_position(shred);
-        let h = fnv(0, &format!("{} {} {} {}", st.fail_salt, slot.inner(), slice, idx));
-        let ok = h % 64 >= st.fail_per_64;
+        // exactly `fail_per_64` of the 64 sends of a slice fail (37 is a unit mod 64: a permutation of the indices),
+        // a different set in every slice; <= 30, so that 34 shreds of every slice do reach the network
+        let rot = fnv(0, &format!("{} {} {}", st.fail_salt, slot.inner(), slice));
+        let ok = ((idx as u64 * 37 + rot) % 64) >= st.fail_per_64;
         st.sent.push((shred.clone(), ok));
         st.boundary = true;
         if idx == TOTAL_SHREDS - 1 && st.pr_after_slice == Some((slot.inner(), slice)) {
@@ -1119,7 +1121,7 @@ fn main() {
     let mut w = World { rec: Recorder::new(), keys, pk, class: 0, shredder: RegularShredder::default() };
     let t0 = std::time::Instant::now();
     let mut plans = directed(&mut rng, args.thorough);
-    let n_random = if args.thorough { 600 } else { 60 };
+    let n_random = if args.thorough { 2000 } else { 60 };
     for _ in 0..n_random {
         let mut r = rng.fork();
         plans.push(random_case(&mut r, args.thorough));
